@@ -171,3 +171,30 @@ def sany(module):
     out = p.stdout.decode()
     return ("Semantic errors" not in out and "Parse Error" not in out and
             "Fatal errors" not in out and p.returncode == 0), out
+
+
+def apalache(module, constants, init, inv, length, timeout=600):
+    """Bounded symbolic check with Apalache (spec/apalache/<module>.tla): returns 'NoError' or 'Error'.
+    Used for inductive invariants: (init=Init, length 0) is the base case, (init=IndInit, length 1) the step."""
+    import shutil
+    d = os.path.join(common.SPEC, "apalache")
+    out = os.path.join(common.scratch(), "apa%d" % (_n[0] + 1))
+    _n[0] += 1
+    cfg = write_cfg("apa_%s_%d.cfg" % (module, _n[0]), "%sINIT %s\nNEXT Next\nINVARIANT %s\n" % (
+        "".join("CONSTANT %s = %s\n" % kv for kv in constants.items()), init, inv))
+    cmd = ["apalache-mc", "check", "--config=" + cfg, "--init=" + init, "--inv=" + inv, "--length=%d" % length,
+           "--out-dir=" + out, module + ".tla"]
+    e = dict(os.environ)
+    e.pop("JAVA_TOOL_OPTIONS", None)
+    t0 = time.time()
+    try:
+        p = subprocess.run(cmd, cwd=d, env=e, stdout=subprocess.PIPE, stderr=subprocess.STDOUT, timeout=timeout)
+    except subprocess.TimeoutExpired:
+        raise common.MachineryFailure("Apalache timed out on %s (%s, %s)" % (module, init, inv))
+    finally:
+        shutil.rmtree(out, ignore_errors=True)
+    text = p.stdout.decode("utf-8", "replace")
+    m = re.search(r"The outcome is: (\w+)", text)
+    if not m or m.group(1) not in ("NoError", "Error"):
+        raise common.MachineryFailure("Apalache failed on %s:\n%s" % (module, "\n".join(text.splitlines()[-15:])))
+    return m.group(1), round(time.time() - t0, 2)
